@@ -38,7 +38,10 @@ BUDGET = {"quick": 400, "thorough": 3300}
 ALGOS = ("lca", "thl", "exh", "base_spfs", "ext_spfs", "base_uspfs", "superdtl")
 COST_OPTS = [[], ["--cost-dup", "2", "--cost-sloss", "0"], ["--cost-hgt", "float('inf')"],
              # costs whose optimum needs more than six significant digits / is not an integer
-             ["--cost-dup", "1000000", "--cost-floss", "1/3", "--cost-sloss", "7"]]
+             ["--cost-dup", "1000000", "--cost-floss", "1/3", "--cost-sloss", "7"],
+             # a zero unit cost for an event the solutions do use (kept inside spe + 2*sloss <= dup + 2*floss: outside it ANY
+             # may return a non-optimal solution, the recorded finding F-COHERENCE)
+             ["--cost-dup", "0", "--cost-hgt", "2"]]
 
 
 def worker_init():
@@ -323,13 +326,16 @@ def plan(tier, seed):
     # patterns in which two consecutive auto-label-like names are taken)
     # and the 5-leaf objects on one species / one object on 5-leaf species trees (the first size at which pre-order and
     # breadth-first numbering of the ancestors differ)
-    pairs = (spaces.shape_pairs(3, 2) + spaces.shape_pairs(5, 1, min_obj=4) + spaces.shape_pairs(1, 5, min_sp=5) if tier == "quick"
+    # and <= 3 object leaves on the two 3-leaf species trees (reduced patterns / algorithms: the drawings need lineages that
+    # cross two species levels)
+    pairs = (spaces.shape_pairs(3, 2) + spaces.shape_pairs(5, 1, min_obj=4) + spaces.shape_pairs(1, 5, min_sp=5)
+             + spaces.shape_pairs(3, 3, min_obj=2, min_sp=3) if tier == "quick"
              else spaces.shape_pairs(3, 3) + spaces.shape_pairs(4, 2, min_obj=4) + spaces.shape_pairs(5, 1, min_obj=5)
              + spaces.shape_pairs(2, 5, min_sp=4))
     for osh, ssh in pairs:
         n = spaces.count_assignments(osh, ssh)
         for i in range(n):
-            out.append({"slice": f"cli:{'P3x2+P4..5x1+P1x5' if tier == 'quick' else 'P3x3+P4x2+P5x1+P2x4..5'}", "osh": osh, "ssh": ssh, "asg": i, "full": tier != "quick"})
+            out.append({"slice": f"cli:{'P3x2+P4..5x1+P1x5+P3x3lite' if tier == 'quick' else 'P3x3+P4x2+P5x1+P2x4..5'}", "osh": osh, "ssh": ssh, "asg": i, "full": tier != "quick"})
     # multifurcating input files (extended solvers): at least one polytomy in either tree
     maxo, maxs = (3, 3) if tier == "quick" else (4, 3)
     for no in range(2, maxo + 1):
@@ -354,7 +360,7 @@ def cases_for(O, S, leafmap, full):
     usyn = [dict(zip(O.leaves, t)) for t in spaces.synteny_tuples(n, u2)]
     k = 0
     opats, spats, algos = object_patterns(O), species_patterns(S), ALGOS
-    if len(O.leaves) >= 5 or len(S.leaves) >= 5:
+    if len(O.leaves) >= 5 or len(S.leaves) >= 5 or (not full and len(S.leaves) == 3):
         # the large trees are there for the numbering order only: fewer patterns, three algorithms
         opats = [p_ for p_ in opats if p_[0] in ("none_named", "O0_O1_taken", "O0_O2_taken") or p_[0].startswith("only_")]
         spats = [p_ for p_ in spats if p_[0] in ("none_named", "all_named", "S_leaves_taken", "underscore_species")]
@@ -431,7 +437,7 @@ def run_shard(shard, tier, seed):
     for idx, (oid, opat, sid, spat, algo, leafsyn, explicit, ci) in enumerate(cases_for(O, S, leafmap, shard["full"])):
         n_eval += 1
         counters["cli_reconcile_cases"] += 1
-        sub = idx < 2
+        sub = idx < 2 and shard["asg"] == 0     # driver conformance: the first cases of the first assignment of every shape pair
         if sub:
             counters["subprocess_conformance_runs"] += 2
         bad = check_reconcile(O, S, leafmap, opat, spat, leafsyn, explicit, algo, COST_OPTS[ci], subprocess_too=sub,
